@@ -295,6 +295,20 @@ void corners(const EclipseGrid& g, size_t gi, A8& X, A8& Y, A8& Z) {
     for (int c = 0; c < 8; ++c) { auto p = g.getCornerPos(ijk[0], ijk[1], ijk[2], c); X[c] = p[0]; Y[c] = p[1]; Z[c] = p[2]; }
 }
 
+// i-direction: edges (n, n+1), n even; j-direction: edges (n, n+2), bit 1 clear
+void splitI(const A8& v, A8& lo, A8& up) {
+    for (int n = 0; n < 8; n += 2) {
+        const double m = (v[n] + v[n + 1]) / 2.0;
+        lo[n] = v[n]; lo[n + 1] = m; up[n] = m; up[n + 1] = v[n + 1];
+    }
+}
+void splitJ(const A8& v, A8& lo, A8& up) {
+    for (int n : { 0, 1, 4, 5 }) {
+        const double m = (v[n] + v[n + 2]) / 2.0;
+        lo[n] = v[n]; lo[n + 2] = m; up[n] = m; up[n + 2] = v[n + 2];
+    }
+}
+
 void splitK(const A8& v, A8& lo, A8& up) {
     for (int n = 0; n < 4; ++n) {
         const double m = (v[n] + v[n + 4]) / 2.0;
@@ -488,7 +502,12 @@ int main(int argc, char** argv) {
                 sink.emit("grid.vol " + hexA(X) + " " + hexA(Y) + " " + hexA(Z), vh::hexF64(calculateCellVol(X, Y, Z)));
                 A8 xl, xu, yl, yu, zl, zu;
                 splitK(X, xl, xu); splitK(Y, yl, yu); splitK(Z, zl, zu);
-                sink.emit("grid.split " + hexA(X) + " " + hexA(Y) + " " + hexA(Z), vh::hexF64(calculateCellVol(xl, yl, zl)) + " " + vh::hexF64(calculateCellVol(xu, yu, zu)));
+                std::string ans = vh::hexF64(calculateCellVol(xl, yl, zl)) + " " + vh::hexF64(calculateCellVol(xu, yu, zu));
+                splitI(X, xl, xu); splitI(Y, yl, yu); splitI(Z, zl, zu);
+                ans += " " + vh::hexF64(calculateCellVol(xl, yl, zl)) + " " + vh::hexF64(calculateCellVol(xu, yu, zu));
+                splitJ(X, xl, xu); splitJ(Y, yl, yu); splitJ(Z, zl, zu);
+                ans += " " + vh::hexF64(calculateCellVol(xl, yl, zl)) + " " + vh::hexF64(calculateCellVol(xu, yu, zu));
+                sink.emit("grid.split " + hexA(X) + " " + hexA(Y) + " " + hexA(Z), ans);
                 sink.count("vol", 2);
             }
         }
@@ -546,6 +565,8 @@ int main(int argc, char** argv) {
                 for (size_t a = 0; a < nact && ok; ++a) if (g.activeIndex(g.getGlobalIndex(a)) != a) { ok = false; why = "active(global(a))!=a"; }
                 if (ok) log.ok(); else log.fail("index", dims3(nx, ny, nz) + " actnum=" + joinI(act) + " " + why);
                 st["index"]++;
+                // broken index maps make every geometric query read out of bounds: report and stop here
+                if (log.failed > 0) break;
             }
             // P2: input forms agree (DX/DY/DZ/TOPS, DXV/DYV/DZV/TOPS, DXV/DYV/DZV/DEPTHZ, explicit COORD/ZCORN)
             {
@@ -634,6 +655,11 @@ int main(int argc, char** argv) {
                 A8 xl, xu, yl, yu, zl, zu;
                 splitK(X, xl, xu); splitK(Y, yl, yu); splitK(Z, zl, zu);
                 const double v = calculateCellVol(X, Y, Z), v1 = calculateCellVol(xl, yl, zl), v2 = calculateCellVol(xu, yu, zu);
+                splitI(X, xl, xu); splitI(Y, yl, yu); splitI(Z, zl, zu);
+                const double vi = calculateCellVol(xl, yl, zl) + calculateCellVol(xu, yu, zu);
+                splitJ(X, xl, xu); splitJ(Y, yl, yu); splitJ(Z, zl, zu);
+                const double vj = calculateCellVol(xl, yl, zl) + calculateCellVol(xu, yu, zu);
+                if (!close(v, vi, VT) || !close(v, vj, VT)) log.fail("additive.ij", "X=" + hexA(X) + " Y=" + hexA(Y) + " Z=" + hexA(Z) + " v=" + num(v) + " i-halves=" + num(vi) + " j-halves=" + num(vj));
                 A8 Xt = X, Yt = Y, Zt = Z;
                 for (int n = 0; n < 8; ++n) { Xt[n] += 12345.0; Yt[n] -= 999.0; Zt[n] += 77.0; }
                 const double vt = calculateCellVol(Xt, Yt, Zt);
@@ -723,7 +749,9 @@ int main(int argc, char** argv) {
             }
         }
         // P5: thread-count independence, observed: re-exec with OMP_NUM_THREADS = 1, 4, 16 and compare bits
-        {
+        if (st["index"] > 0 && log.failed > 0 && st.count("forms") == 0) {
+            // index maps broken in the first round: nothing else was (or can safely be) evaluated
+        } else {
             std::vector<std::string> outs;
             bool ran = true;
             for (int nt : { 1, 4, 16 }) {
